@@ -13,7 +13,7 @@ type step func(g *Gen) (Op, string, bool)
 
 // Scenarios lists the available scripts (index 0 = none).
 var Scenarios = []string{"", "connect", "silence", "restart_same_creds", "restart_disconnected", "fail_restart",
-	"late_response", "two_transports", "multi_pair", "prflx_supersede", "zero_failed_timeout", "foreign_indication", "neighbour_port", "stale_deferred", "supersede_renom"}
+	"late_response", "two_transports", "multi_pair", "prflx_supersede", "zero_failed_timeout", "foreign_indication", "neighbour_port", "stale_deferred", "supersede_renom", "deferred_then_plain"}
 
 func (g *Gen) sAL(i int) step {
 	return func(g *Gen) (Op, string, bool) {
@@ -285,6 +285,11 @@ func (g *Gen) Plan(name string, ctl bool) {
 		// when the first pair becomes valid its stale value must not move the selection
 		g.script = []step{g.sAL(0), g.sAR(0), g.sAR(1), sStart(ctl), sTick, sTick, sAnswerTo(0), sPeerReq(0, 0, true, 1),
 			sPeerReq(0, 1, true, 1), sPeerReq(0, 0, true, 1), sTick, sAnswerTo(1), sAnswerTo(1), sTick, sAnswerTo(1)}
+	case "deferred_then_plain":
+		// a renomination deferred on a pair that is not valid yet, then a (reordered) plain USE-CANDIDATE on the same
+		// pair: the deferred value must survive, so the pair is selected -- whatever its priority -- once it is valid
+		g.script = []step{g.sAL(0), g.sAR(0), g.sAR(1), sStart(false), sTick, sTick, sAnswerTo(0), sPeerReq(0, 0, true, 1),
+			sPeerReq(0, 1, true, 1), sPeerReq(0, 1, true, 0), sTick, sAnswerTo(1), sAnswerTo(1), sTick, sAnswerTo(1)}
 	case "supersede_renom":
 		// a renomination deferred on a peer-reflexive pair survives the arrival of the signalled candidate
 		g.script = []step{g.sAL(0), g.sAR(0), sStart(false), sTick, sAnswerTo(0), sPeerReq(0, 0, true, 1),
